@@ -219,7 +219,7 @@ class RF24:
         """Open a data pipe for TX transmissions."""
         if len(address) > 5:
             raise ValueError("address length cannot exceed 5 bytes")
-        if self._pipe0_read_addr != address and self._aa & 1:
+        if self._aa & 1:
             for i, val in enumerate(address):
                 self._pipes[0][i] = val  # type: ignore[assignment, index]
             self._reg_write_bytes(RX_ADDR_P0, address)
